@@ -158,6 +158,11 @@ func GenId(ctx *Context, fact map[string]interface{}, def string) (string, error
 	if def == "" {
 		def = UUID()
 	}
+	if IsVariable(def) {
+		// Such an id would be taken as a variable when looking
+		// for the facts to delete with it.
+		return "", fmt.Errorf("id '%s' cannot start with a '?'", def)
+	}
 	return def, nil
 }
 
